@@ -101,6 +101,12 @@ def all_jobs():
                   props=['C01', 'C05', 'C09', 'C10'], pretty='bloc::MemberINSERTExpression::value', canaries=['normal', 'exceptional'], unwind=2,
                   unwind_why='Value::deref_value() pointer chase; the element loops of table-into-table insertion are outside the contract domain (operand assumption)',
                   structs=DEFAULT_STRUCTS + [STD_STRING, VEC_CHAR, 'bloc::Collection', 'bloc::Tuple', 'bloc::Context']))
+    mg = '_ZNK4bloc22MemberCONCATExpression5valueERNS_7ContextE'
+    J.append(dict(id='member_concat', src='blocc/member/member_concat.cpp', contract='member_concat.c', enforce=mg, roots=[mg],
+                  replace=list(MEMB_REPLACE) + ['_ZN4bloc7Context9getSymbolEj', '_ZN4bloc7Context13storeVariableEjONS_5ValueE'], cut=list(MEMB_CUT) + ['_ZN4bloc7Context9getSymbolEj', '_ZN4bloc7Context13storeVariableEjONS_5ValueE'],
+                  props=['C01', 'C05', 'C09'], pretty='bloc::MemberCONCATExpression::value', canaries=['normal', 'exceptional'], unwind=2,
+                  unwind_why='Value::deref_value() pointer chase; the element loops of table-to-table concatenation are outside the contract domain (operand assumption)',
+                  structs=DEFAULT_STRUCTS + [STD_STRING, VEC_CHAR, 'bloc::Collection', 'bloc::Tuple', 'bloc::Context', 'bloc::Symbol']))
     HASHFN = '_ZN4blocL17bloc_builtin_hashEjPKcj'
     J.append(dict(id='builtin_hash_loop', src='blocc/builtin/builtin_hash.cpp', contract='builtin_hash.c', enforce=HASHFN, roots=[HASHFN], replace=[], cut=[RTE_CTOR, RTE_CTOR_S],
                   props=['C01', 'C10'], pretty='bloc::bloc_builtin_hash', canaries=['normal'], defines=['HASH_LOOP_JOB', 'HASH_LEN_MAX=6'], unwind=8, bounded_inputs=True,
